@@ -108,7 +108,7 @@ class World:
             if isinstance(node, ast.ClassDef):
                 m.ns[node.name] = self.make_class(node, m, frame)
             elif isinstance(node, ast.FunctionDef):
-                m.ns[node.name] = PyFunc(node, m)
+                m.ns[node.name] = self._decorated(PyFunc(node, m), node)
             elif isinstance(node, (ast.Import, ast.ImportFrom)):
                 self._import_stmt(node, m)
             elif isinstance(node, (ast.Assign, ast.AugAssign, ast.Expr)):
@@ -167,6 +167,20 @@ class World:
                 else:
                     m.ns[a.asname or a.name] = mod.ns[a.name]
 
+    def _decorated(self, fn, node):
+        """decorators change what a name denotes: the transparent ones are modelled, a memoising one makes every result a
+        shared object, any other makes calls to the function out of subset (never silently ignored)"""
+        for d in node.decorator_list:
+            dn = ast.unparse(d)
+            base = dn.split("(")[0].split(".")[-1]
+            if dn in ("classmethod", "staticmethod"):
+                continue
+            if base in ("lru_cache", "cache", "cached_property"):
+                fn.memoized = True
+            else:
+                fn.unknown_decorator = dn
+        return fn
+
     def make_class(self, node, m, frame):
         bases = []
         for b in node.bases:
@@ -180,6 +194,8 @@ class World:
         for d in node.decorator_list:
             if ast.unparse(d).endswith("total_ordering"):
                 cls.total_ordering = True
+            else:
+                cls.unknown_decorator = ast.unparse(d)
         for item in node.body:
             if isinstance(item, ast.FunctionDef):
                 kind = "function"
@@ -189,7 +205,7 @@ class World:
                         kind = "classmethod"
                     elif dn == "staticmethod":
                         kind = "staticmethod"
-                cls.methods[item.name] = PyFunc(item, m, cls, kind)
+                cls.methods[item.name] = self._decorated(PyFunc(item, m, cls, kind), item)
             elif isinstance(item, ast.Assign):
                 v = self.boot.eval(item.value, frame)
                 for t in item.targets:
